@@ -363,6 +363,13 @@ def svd_stub(a, full_matrices=True, compute_uv=True, **kw):
     m, n = a.shape
     c = ctx()
     k = min(m, n)
+    hook = getattr(c, 'svd_hook', None)
+    if hook is not None:
+        res = hook(a)
+        if res is not None:
+            used("numpy.linalg.svd=relational contract supplied by the check (see assumptions)")
+            c.svd_last = (a, res[0], res[1])
+            return None, res[0].copy(), res[1].copy()
     # the stub is a function of its input: the same matrix gets the same (S, Vh)
     memo = getattr(c, '_svd_memo', None)
     if memo is None:
